@@ -116,6 +116,7 @@ type HistFamily struct {
 	Or        HistOracle
 	UndoBud   int
 	RTBud     int
+	VerBud    int // Verify(remember=true) of an arbitrary live leaf set as a transition
 	MaxDepth  int // 0 = unbounded (space is finite because N never decreases)
 	NoDedup   bool
 	PermLimit int // all permutations of request order for |S| <= PermLimit
@@ -134,6 +135,7 @@ type histModel struct {
 	stack   []frame
 	undoBud int
 	rtBud   int
+	verBud  int
 	hasUndo bool
 	hasRT   bool
 }
@@ -141,7 +143,7 @@ type histModel struct {
 func (m *histModel) AbstractKey() string { return m.s.Key() }
 
 func (f *HistFamily) Root() (*Node, string) {
-	md := &histModel{undoBud: f.UndoBud, rtBud: f.RTBud}
+	md := &histModel{undoBud: f.UndoBud, rtBud: f.RTBud, verBud: f.VerBud}
 	return &Node{Model: md}, "root"
 }
 
@@ -166,6 +168,11 @@ func (f *HistFamily) Ops(n *Node) []Op {
 	if md.rtBud > 0 {
 		ops = append(ops, Op{Kind: "roundtrip"})
 	}
+	if md.verBud > 0 {
+		for _, set := range subsets(live, false) {
+			ops = append(ops, Op{Kind: "verify", Set: set})
+		}
+	}
 	return ops
 }
 
@@ -177,7 +184,7 @@ func (f *HistFamily) run(x *Exec, hist []Op) ([]*inst, *histModel, bool) {
 	for i, c := range f.Insts {
 		insts[i] = newInst(c)
 	}
-	md := &histModel{undoBud: f.UndoBud, rtBud: f.RTBud}
+	md := &histModel{undoBud: f.UndoBud, rtBud: f.RTBud, verBud: f.VerBud}
 	ok := true
 	for _, op := range hist {
 		if !f.apply(x, insts, md, op) {
@@ -272,9 +279,9 @@ func (f *HistFamily) apply(x *Exec, insts []*inst, md *histModel, op Op) bool {
 				ok = false
 				continue
 			}
-			// tracked after undo: what was tracked before the block, plus the block's
-			// deletions (they were cached when the block was applied).
-			tr := append([]bool(nil), fr.tracked[i]...)
+			// tracked after undo: what is tracked now among the leaves that existed before
+			// the block, plus the block's deletions (cached when the block was applied).
+			tr := append([]bool(nil), in.tracked[:fr.prev.N()]...)
 			for _, d := range fr.op.Dels {
 				tr[d] = true
 			}
@@ -295,6 +302,26 @@ func (f *HistFamily) apply(x *Exec, insts []*inst, md *histModel, op Op) bool {
 		}
 		md.rtBud--
 		md.hasRT = true
+	case "verify":
+		L := ref.APILayout(md.s)
+		proof := L.Proof(op.Set)
+		hs := ref.Hashes(op.Set)
+		for _, in := range insts {
+			if in.broken || in.stump != nil {
+				continue
+			}
+			name := in.cfg.Name()
+			if err := x.VerifyAcc(name, in.acc, hs, proof, true); err != nil {
+				x.Report(f.Or.Prop, "honest proof rejected by Verify(remember) on "+in.cfg.Class(), fmt.Sprintf("%s: %v", name, err))
+				in.broken = true
+				ok = false
+				continue
+			}
+			for _, s := range op.Set {
+				in.tracked[s] = true
+			}
+		}
+		md.verBud--
 	default:
 		panic("hist: bad op " + op.Kind)
 	}
@@ -374,7 +401,7 @@ func (f *HistFamily) Step(n *Node, op Op) StepResult {
 	}
 	var sb strings.Builder
 	sb.WriteString(md.s.Key())
-	fmt.Fprintf(&sb, "|u%d r%d|", md.undoBud, md.rtBud)
+	fmt.Fprintf(&sb, "|u%d r%d v%d|", md.undoBud, md.rtBud, md.verBud)
 	if f.NoDedup {
 		sb.WriteString(histStr(hist))
 	}
@@ -621,6 +648,12 @@ func (f *HistFamily) observeLookups(x *Exec, prop string, insts []*inst, md *his
 				}
 			}
 		}
+		var LT *ref.Layout
+		if in.m != nil {
+			if tr := in.m.GetTreeRows(); tr > R && tr <= 63 {
+				LT = ref.LayoutOf(md.s, tr)
+			}
+		}
 		probesPos := make([]uint64, 0, maxp+4)
 		for p := uint64(0); p < maxp; p++ {
 			probesPos = append(probesPos, p)
@@ -632,14 +665,19 @@ func (f *HistFamily) observeLookups(x *Exec, prop string, insts []*inst, md *his
 			want, exists := L.At[p]
 			switch {
 			case !exists:
-				if got != ref.Zero {
-					_, _, inGeom := ref.RowOffOf(p, R)
-					where := "a vacated in-forest position"
-					if !inGeom {
-						where = "a position outside the forest"
-					}
-					x.Report(prop, "GetHash returns a non-zero hash for "+where+" on "+class, fmt.Sprintf("%s pos %d (N=%d rows=%d): got %x", name, p, md.s.Total(), R, got[:4]))
+				if got == ref.Zero {
+					break
 				}
+				// The map forest also accepts positions in the coordinates of its allocated
+				// height (GetTreeRows), which is how String() and the repository's tests
+				// address it: a position that is no node in API coordinates may return the
+				// true hash of the node at that position in allocated coordinates.
+				if LT != nil {
+					if h, ok := LT.At[p]; ok && h == got {
+						break
+					}
+				}
+				x.Report(prop, "GetHash returns a non-zero hash for a position where no node exists on "+class, fmt.Sprintf("%s pos %d (N=%d rows=%d): got %x", name, p, md.s.Total(), R, got[:4]))
 			case partial && !must[p]:
 				if got != want && got != ref.Zero {
 					x.Report(prop, "GetHash returns a false hash on "+class, fmt.Sprintf("%s pos %d: want %x or zero, got %x", name, p, want[:4], got[:4]))
